@@ -8,7 +8,7 @@ open AferoVerif
 
 /-- what "the wrapped filesystem" is: every object (name, kind, bytes, mode, mtime, owner,
     directory index) and the path map.  Handle cursors are not part of it. -/
-def tree (m : MemFs) : List FData × List (Key × ObjId) := (m.objs, m.data)
+def tree (m : MemFs) : List FData × List (Key × Nat) := (m.objs, m.data)
 
 /-- every handle ever returned through the wrapper is a read-only handle -/
 def AllRO (m : MemFs) : Prop := ∀ mh ∈ m.handles, mh.h.readOnly = true
@@ -26,7 +26,7 @@ theorem mask_facts (flag : Nat) (h : flag &&& roWriteMask = 0) :
 
 /-! ### helper facts about the source model -/
 
-theorem setObj_same (m : MemFs) (i : ObjId) : m.setObj i (m.obj i) = m := by
+theorem setObj_same (m : MemFs) (i : Nat) : m.setObj i (m.obj i) = m := by
   unfold MemFs.setObj MemFs.obj
   by_cases h : i < m.objs.length
   · have : m.objs.set i (m.objs.getD i default) = m.objs := by
@@ -37,7 +37,7 @@ theorem setObj_same (m : MemFs) (i : ObjId) : m.setObj i (m.obj i) = m := by
       exact List.set_eq_of_length_le hle
     rw [this]
 
-theorem allRO_append (m : MemFs) (f : ObjId) (h : AllRO m) :
+theorem allRO_append (m : MemFs) (f : Nat) (h : AllRO m) :
     AllRO { m with handles := m.handles ++ [{ obj := f, h := { readOnly := true } }] } := by
   intro mh hmh
   simp only [List.mem_append, List.mem_singleton] at hmh
